@@ -8,6 +8,10 @@ CHECKS = {
    technique="property-based testing (rapid) + exhaustive enumeration of all 1-6 digit fractions against an arithmetic reference instant",
    text="Exhaustive over every fraction of 1-6 digits, every calendar day of 8 years and every ±hh:mm/±hhmm offset; rapid-generated stamps over year 0-9999 with 0-9 fraction digits compared to an instant computed by the harness's own civil-date arithmetic (to the nanosecond, plus zone offset). Totality: generated strings (raw bytes, prefixes, one-byte edits, junk suffixes, NIL) must not panic; not-date-shaped strings must be counted as timeError and leave the fallback time untouched.",
    note="Valid domain = upper-case T/Z, seconds 0-59, offset hours 0-23 (sound subset of RFC 3339); stamps without an offset are outside the property. Absence of violations outside the explored cases is not claimed."),
+ "C09": dict(engine="c09parse", category="exploration", design="§3 C09",
+   technique="property-based testing (rapid) of lines built from components against the construction-known fields + exhaustive PRI 0..200 and cut-boundary enumeration",
+   text="Lines are rendered from generated components, parsed through sysloginput.Config.NewParser, and every field must equal its component; PRI 0..200 enumerated under two level mappings; messages of limit-8..limit+8 bytes for every rune width/alignment enumerated, rapid cases around the message and record limits at scaled (64/200/1000 B) and production (1 MiB) limits; overflow cut must be the longest rune-aligned prefix and be counted; input counters must grow by exactly one record and len(input) bytes per Parse call.",
+   note="defs.InputLogMaxMessageBytes/RecordBytes are package variables scaled by the harness keeping MaxRecord = MaxMessage+256; about 1% of cases (20% in thorough) use the production 1 MiB limit. Messages that are not valid UTF-8 are only checked for the length bound and the overflow count (documented clean-up may strip invalid bytes)."),
 }
 
 NOT_YET = {}
